@@ -49,10 +49,16 @@ struct MidiWorld : World {
     void gen(const std::string &, Rng &kr, Rng &pr, Knobs &k, Plan &p) override {
         k.assign(5, 0); k[4] = kr.chance(0.4); k[0] = 2 + kr.below(3); k[1] = 2 + kr.below(5); k[2] = kr.chance(0.5); /* (the knob used to gate the triggers of two known findings; both are repaired, half of the runs overtake freely now) */ k[3] = kr.below(NADDR);
         int na = (int)k[0], nc = (int)k[1]; int n = 1 + (int)pr.below(g_tier ? 100 : 40);
+        // 6 % of the runs age the two halves first: 28..40 complete learn / use / unlearn cycles delivered in order, so that whatever the halves count or index per report
+        // (the realtime half keeps its unanswered reports in a 32-cell ring) has wrapped when the history proper begins
+        if (kr.chance(0.06)) { int cycles = 28 + (int)kr.below(13); k.push_back(cycles); int c0 = 2 + (int)kr.below(nc); bool same = kr.chance(0.5);
+            for (int j = 0; j < cycles; j++) { Op m; m.kind = U_MAP; m.a[0] = 0; m.a[1] = 0; p.push_back(m); Op d; d.kind = D_A; p.push_back(d); p.push_back(d);
+                Op c; c.kind = M_CC; c.a[0] = same ? c0 : 2 + ((c0 + j) % nc); c.a[1] = 1 + j % 120; c.a[3] = 0; p.push_back(c); Op e; e.kind = D_B; p.push_back(e); p.push_back(d); p.push_back(d);
+                Op u; u.kind = U_UNMAP; u.a[0] = 0; p.push_back(u); p.push_back(d); p.push_back(d); p.push_back(e); } }
         double w_user = 0.15 + 0.2 * pr.unit(), w_midi = 0.25 + 0.3 * pr.unit(), w_del = 0.2 + 0.4 * pr.unit(); double tot = w_user + w_midi + w_del;
         for (int i = 0; i < n; i++) { Op o; double u = pr.unit() * tot;
             if ((u -= w_user) < 0) { double s = pr.unit(); o.kind = s < 0.65 ? U_MAP : s < 0.9 ? U_UNMAP : U_CLEAR; o.a[0] = pr.below(na); o.a[1] = pr.chance(0.25); }
-            else if ((u -= w_midi) < 0) { o.kind = pr.chance(0.25) ? M_PAIR : M_CC; o.a[0] = 2 + pr.below(nc); o.a[3] = pr.chance(0.7) ? 0 : 1 + pr.below(4);   /* a[3]: 0 channel 1, 1 channel 2, 2..4 NRPN number, +128, +256 on channel 1 */ o.a[1] = pr.chance(0.2) ? pr.pick(std::vector<int64_t>{0, 127, 64}) : (int64_t)pr.below(128); if (o.kind == M_CC && pr.chance(0.3)) o.a[1] = -1; /* -1: send the value this controller sent last */ o.a[2] = pr.below(128); if (o.kind == M_PAIR && o.a[1] > o.a[2]) std::swap(o.a[1], o.a[2]); }
+            else if ((u -= w_midi) < 0) { o.kind = pr.chance(0.25) ? M_PAIR : M_CC; o.a[0] = pr.chance(0.06) ? 0 : 2 + pr.below(nc); /* (controller 0 is a controller like any other) */ o.a[3] = pr.chance(0.7) ? 0 : 1 + pr.below(4);   /* a[3]: 0 channel 1, 1 channel 2, 2..4 NRPN number, +128, +256 on channel 1 */ o.a[1] = pr.chance(0.2) ? pr.pick(std::vector<int64_t>{0, 127, 64}) : (int64_t)pr.below(128); if (o.kind == M_CC && pr.chance(0.3)) o.a[1] = -1; /* -1: send the value this controller sent last */ o.a[2] = pr.below(128); if (o.kind == M_PAIR && o.a[1] > o.a[2]) std::swap(o.a[1], o.a[2]); }
             else o.kind = pr.chance(0.5) ? D_A : D_B;
             p.push_back(o); }
     }
